@@ -734,11 +734,6 @@ Proof.
     rewrite ?ft5 by (vm_compute; split; discriminate); vm_compute; reflexivity.
 Qed.
 
-Lemma Forall_firstn {A} (P : A -> Prop) n l : Forall P l -> Forall P (firstn n l).
-Proof.
-  intros H. apply Forall_forall. intros x Hx. rewrite Forall_forall in H. apply H.
-  eapply (firstn_In _ _ _ Hx) || (apply (In_firstn_In Hx)) || idtac.
-Abort.
 
 Lemma Forall_firstn {A} (P : A -> Prop) : forall n l, Forall P l -> Forall P (firstn n l).
 Proof.
